@@ -5,7 +5,7 @@ V = os.path.dirname(os.path.dirname(os.path.abspath(__file__)))
 sys.path.insert(0, V)
 from rules import facts, mir
 from rules.registry import PROPS, RULES
-from tools.selftest import make_copy
+from tools.selftest import make_copy, KNOWN_KEYS
 patch = os.path.abspath(sys.argv[1])
 d, dst = make_copy()
 try:
@@ -26,7 +26,7 @@ try:
                 except Exception as e:
                     cache[rid] = []
                     print("rule", rid, "error:", str(e)[:200])
-            hits += [x for x in cache[rid] if x["verdict"] == "violation" and (sel is None or sel(x))]
+            hits += [x for x in cache[rid] if x["verdict"] == "violation" and (sel is None or sel(x)) and (pid, x["key"]) not in KNOWN_KEYS]
         if hits:
             print(pid, "VIOLATED:", "; ".join("%s — %s" % (h["key"], h["detail"][:120]) for h in hits[:3]))
 finally:
